@@ -2,6 +2,7 @@
 from __future__ import annotations
 
 import itertools
+import math
 
 from hypothesis import strategies as st
 
@@ -21,11 +22,13 @@ RULE = (
 )
 ASSUMPTIONS = [
     "merge label = labels of colliding entries and the new one joined with '-' by start time; equal starts may appear in either order",
-    "absent entries differ from every present entry by far more than the library's documented fuzzy entry equality (rel 1e-9)",
+    "absent entries differ from every present entry by far more than the library's fuzzy entry equality (rel 1e-9); present entries are "
+    "identified exactly (two entries of a tier that are merely close to each other are different entries)",
     "deleteEntry of an absent entry must raise (any exception type)",
 ]
 REQUIRED_CLASSES = ["history:insert_before_span_of_empty_tier", "history:collision_by_nanoseconds", "history:delete_absent_same_time", "history:collision_merge_many", "history:collision_replace", "history:delete_absent",
-                    "history:insert_outside_span", "history:point_collision"]
+                    "history:insert_outside_span", "history:point_collision", "history:removed_entry_has_close_twin",
+                    "history:point_one_ulp_beside_existing"]
 
 
 class Model:
@@ -92,6 +95,17 @@ def _compare(tier, model: Model, what):
         raise Violation("entry-type", f"{what}: entries of type {snap['entry_types']}")
 
 
+def _has_close_twin(model, targets):
+    """An earlier, different entry of the tier is equal to a target under the library's fuzzy entry equality."""
+    for x in targets:
+        for y in model.entries:
+            if y == x:
+                break
+            if y[-1] == x[-1] and all(math.isclose(a, b) for a, b in zip(y[:-1], x[:-1])):
+                return True
+    return False
+
+
 def run_history(case):
     p = P()
     spec = case["tier"]
@@ -104,6 +118,16 @@ def run_history(case):
         what = f"step {k} {op}"
         if op["op"] == "insert":
             entry = op["entry"]
+            if op.get("near_sel") is not None and model.entries:
+                e0 = model.entries[-1 - (op["near_sel"] % len(model.entries))]
+                if model.is_int:
+                    entry = [e0[0], e0[1], entry[-1]]
+                else:
+                    t = {0: e0[0], 1: math.nextafter(e0[0], math.inf), 2: math.nextafter(e0[0], -math.inf)}[op.get("near_var", 0)]
+                    entry = [t if t >= 0 else e0[0], entry[-1]]
+                    if t != e0[0]:
+                        classes.add("point_one_ulp_beside_existing")
+                what = f"step {k} {op} -> entry {entry}"
             form = op.get("form", "obj")
             if form == "obj":
                 arg = (p.Interval if model.is_int else p.Point)(*entry)
@@ -130,6 +154,8 @@ def run_history(case):
                     n_coll += 1
                     continue
                 raise Violation("spurious-collision", f"{what}: CollisionError with matches {m}")
+            if m and _has_close_twin(model, m):
+                classes.add("removed_entry_has_close_twin")
             status, info = model.insert(entry, op["mode"])
             if status == "collision":
                 raise Violation("collision-not-raised", f"{what}: collides with {m} but no CollisionError")
@@ -176,6 +202,8 @@ def run_history(case):
                     continue
                 raise Violation("delete-absent-accepted", f"{what}: deleting the absent entry {entry} did not raise")
             entry = model.entries[op["sel"] % len(model.entries)]
+            if _has_close_twin(model, [entry]):
+                classes.add("removed_entry_has_close_twin")
             tier.deleteEntry((p.Interval if model.is_int else p.Point)(*entry))
             model.entries.remove(entry)
             n_del += 1
@@ -226,6 +254,22 @@ def histories(draw):
                 "maxT": max(ts + [draw(st.sampled_from([1.0, 3.0]))]), "style": style}
     if spec["maxT"] <= spec["minT"]:
         spec["maxT"] = spec["minT"] + 1.0
+    twins = style == "dec" and draw(st.integers(0, 3)) == 0
+    if twins:
+        # entries closer to each other than the library's fuzzy entry equality (rel. 1e-9) and with the same label:
+        # distinct entries of a well-formed tier all the same
+        lb = draw(lab)
+        if is_int:
+            b0 = max([e[1] for e in spec["entries"]] + [spec["minT"]]) + draw(st.sampled_from([0.0, 0.5]))
+            d = max(b0, 1.0) * 3e-10
+            spec["entries"] += [[b0, b0 + d, lb], [b0 + d, b0 + 2 * d, lb]]
+            spec["maxT"] = max(spec["maxT"], b0 + 2 * d)
+        else:
+            t0 = draw(st.integers(1, 60)) / 10 + 0.05
+            d = draw(st.sampled_from([math.ulp(t0), t0 * 3e-10]))
+            spec["entries"] = sorted(spec["entries"] + [[t0, lb], [t0 + d, lb]])
+            spec["maxT"] = max(spec["maxT"], t0 + d)
+            spec["minT"] = min(spec["minT"], t0)
     ops = []
     for _ in range(draw(st.integers(1, 10))):
         if draw(st.integers(0, 3)) > 0:
@@ -245,9 +289,15 @@ def histories(draw):
             ops.append({"op": "insert", "entry": entry, "mode": draw(st.sampled_from(["error", "replace", "merge", "merge"])),
                         "report": draw(st.sampled_from(["silence", "warning"])),
                         "form": draw(st.sampled_from(["obj", "tuple", "list"]))})
+            if style == "dec" and draw(st.integers(0, 2 if twins else 5)) == 0:
+                # placed relative to an entry the tier holds at that step (from the end: that is where the twins are):
+                # exactly on it, or one unit in the last place beside it (which is a different time)
+                ops[-1].update(near_sel=draw(st.integers(0, 3)), near_var=draw(st.sampled_from([0, 0, 1, 2])))
         else:
             ops.append({"op": "delete", "sel": draw(st.integers(0, 7)),
                         "absent": draw(st.sampled_from([False, False, False, True, "same_time"]))})
+            if twins and draw(st.booleans()):
+                ops[-1]["sel"] = -1 - draw(st.integers(0, 2))
     return {"tier": spec, "ops": ops}
 
 
